@@ -8,8 +8,16 @@ use std::pin::Pin;
 use parking_lot::Mutex;
 use std::sync::Arc;
 use std::task::{Context, Poll, Waker};
+#[cfg(not(excsn_fibre_verif))]
 use std::thread::{self, Thread};
+#[cfg(excsn_fibre_verif)]
+use crate::internal::sync::thread::{self, Thread};
+#[cfg(not(excsn_fibre_verif))]
 use std::time::{Duration, Instant};
+#[cfg(excsn_fibre_verif)]
+use std::time::Duration;
+#[cfg(excsn_fibre_verif)]
+use fibre_verif_rt::time::Instant;
 
 // --- Waiter & Internal State ---
 
